@@ -198,6 +198,12 @@ def check_write(case, rec):
             run_read(path, case["results"][0]["name"], "Float", None)
             rec.label("write_over_file_read_before")
         producers = [A.stub(c["name"], A.make_array(c["spec"])) for c in case["results"]]
+        if case.get("listed"):
+            # the same result may be listed more than once: one column per listed name, in the listed order
+            idx = [k % len(producers) for k in case["listed"]]
+            producers = [producers[k] for k in idx]
+            case = dict(case, results=[case["results"][k] for k in idx])
+            rec.label("write_with_repeated_names")
         cmd = EEMSWrite("W", [Argument("OutFileName", path, 1), Argument("OutFieldNames", producers, 2)], lineno=1)
         sig = "write|" + "+".join(sorted(set(c["spec"]["dtype"] for c in case["results"])))
         try:
@@ -235,6 +241,8 @@ def check_write(case, rec):
         if not fails:
             for j, c in enumerate(case["results"]):
                 if c["spec"]["mask"] and any(c["spec"]["mask"]):
+                    continue
+                if [r["name"] for r in case["results"]].count(c["name"]) > 1 and case["results"][[r["name"] for r in case["results"]].index(c["name"])] is not c:
                     continue
                 status, res = run_read(path, c["name"], "Float", None)
                 rec.label("reread")
@@ -330,6 +338,8 @@ def write_cases(draw):
     case = {"results": results}
     if draw(st.integers(0, 2)) == 0:
         case["preexisting"] = draw(st.sampled_from([1, n, n + 2]))
+    if draw(st.integers(0, 3)) == 0:
+        case["listed"] = draw(st.lists(st.integers(0, 7), min_size=2, max_size=5))
     return case
 
 
